@@ -11,7 +11,8 @@ LEVEL = ("Static error-discipline analysis of the worker closure, the controller
          "nothing about panics inside user densities or rayon."
          " Added: a rejected starting point leaves the retry loop only under an is_recoverable() == false test (R3); no Result-typed local is assigned and never read outside the confirmed sites (R6)."
          " Added (round 4): no integer / Duration division with a divisor that can be zero and is not guarded (R9); no write-only error accumulator (R10); both with planted positive controls."
-         " Added (round 5): unwrapped float-to-integer conversions have a bounded operand (R11); Sampler::abort drains the results channel and carries a chain error into its result (R12; decided F16); the worker returns Ok only behind Model::math and the initialisation loop (R3 ok-after-init).")
+         " Added (round 5): unwrapped float-to-integer conversions have a bounded operand (R11); Sampler::abort drains the results channel and carries a chain error into its result (R12; decided F16); the worker returns Ok only behind Model::math and the initialisation loop (R3 ok-after-init)."
+         " Added (round 6): no byte offset into a string that is not derived from its character boundaries (R13, positive control); no Err of a function's own making is reachable from a Divergence arm (R14); R11 carries a positive control instead of a floor.")
 EXPLANATION = ("ERR classification of every consumer of a fallible call result in the scope bodies (MIR def-use), with an explicit "
                "table of accepted non-propagating idioms (one reason each); HIR arm analysis of wait_timeout/abort.")
 TRUSTED = ["rustc nightly MIR", "nutsfacts extractor", "rules/err.py classification"]
